@@ -327,6 +327,20 @@ impl InRig {
             Ev::ReadConfig { off, .. } => outs.extend([21, *off as u128]),
             _ => {} } }
         ctx.tr.line(1962, &ins, &outs);
+        // the monitors of the configuration queries (Extract/InputCfgIO.v, also run by C13 / C07): the accesses seen follow VirtIO
+        // 5.8.5 inside the 136-byte structure (1321), the value is the specification's for what the device exposed (1322)
+        let mut trace: Vec<[u128; 4]> = vec![];
+        for e in &evs { match e {
+            Ev::WriteConfig { off, len } if off + len <= cfg.len() => trace.push([1, *off as u128, *len as u128, cfg[*off] as u128]),
+            Ev::ReadConfig { off, len } if off + len <= cfg.len() => trace.push([0, *off as u128, *len as u128, cfg[*off] as u128]),
+            _ => {} } }
+        let mut m1 = vec![selv as u128, subsel as u128]; for e in &trace { m1.extend(e); }
+        ctx.tr.line(1321, &m1, &[1]);
+        let (mres, untouched): (Vec<u128>, bool) = match &r {
+            Ok(Ok(sz)) => { let n = (*sz as usize).min(out.len()); let mut o = vec![0, 1 + n as u128, *sz as u128]; o.extend(out[..n].iter().map(|b| *b as u128)); (o, out[n..].iter().all(|b| *b == 0xee)) }
+            Ok(Err(e)) => (vec![1, err_code(e)], true), Err(_) => (vec![2, 0], true) };
+        let mut m2 = vec![0, out_len as u128, untouched as u128]; m2.extend(mres); m2.push(trace.len() as u128); for e in &trace { m2.extend(e); }
+        ctx.tr.line(1322, &m2, &[1]);
         ctx.tr.note(match &r { Ok(Ok(_)) => "input_query_ok", Ok(Err(_)) => "input_query_refused", Err(_) => "input_query_panic" });
     }
 
